@@ -30,6 +30,17 @@ module machinery, get_descriptive_data; poll threads not started).
              D8 read / change / do / activate aimed at unexported modules, unexported accessibles, internal attribute
                 names: refused, nothing delivered (no driver call, no message, no later update)
 
+             D9 commands from the description's side: for every described command every payload of valid + bad built from the
+                described argument datainfo, resp. null and the falsy / truthy JSON values of every kind for a command
+                described without argument: what the description does not allow is refused and runs nothing, canonical
+                arguments run the command, the node agrees with get_datatype(argument datainfo), the result is importable
+                with the described result datainfo (none described: null).  Inherited and shipped command functions are
+                never run on purpose: there only the payloads that must be refused are sent.
+             started nodes: nodes brought up through the real start path (Server._processCfg with startModule, modules with
+                enablePoll off) whose module finalises datatypes (min/max, unit, maxchars) in startModule and changes them
+                again at run time (min/max, unit, maxchars, maxlen, enum members): D1-D9 run on the description a client gets
+                after the start, and once more on the description it gets after the run-time change
+
 Oracle calibration
   * 'importable' is import_value + exact re-export, deliberately not validate(): frappy lets a reading exceed the
     declared limits and the statement only asks for importability.
@@ -305,6 +316,11 @@ def node_specs(tier):
     for shape in G.shapes(tier) + G.shapes_c06(tier):
         for label, cfg in gen_configs(shape):
             specs.append({'kind': 'gen', 'shape': shape, 'cfg': cfg, 'label': f"{shape['name']}/{label}"})
+    # nodes brought up through the real start path (Server._processCfg with startModule; no module polls), whose module
+    # finalises datatypes in startModule and changes them again at run time
+    for shape in G.shapes_c06(tier):
+        if shape.get('deferred'):
+            specs.append({'kind': 'gen', 'shape': shape, 'cfg': {}, 'start': True, 'label': f"{shape['name']}/started"})
     # a node whose module under test is itself unexported (and a visible neighbour)
     specs.append({'kind': 'gen', 'shape': G.shapes(tier)[1], 'cfg': {'export': False}, 'label': 'GB/unexported'})
     shipped = ['demo_cfg.py', 'sim_cfg.py', 'test_cfg.py']
@@ -369,12 +385,13 @@ class NodeUnderTest:
         if spec['kind'] == 'gen':
             shape = spec['shape']
             cls = G.make_class(shape)
+            hidden = G.HIDDEN_SHAPE if not spec.get('start') else dict(G.HIDDEN_SHAPE, name='GHN', nopoll=True)
             modcfg = {MOD: dict({'cls': cls}, **json.loads(json.dumps(spec['cfg']))),
-                      'hm': {'cls': G.make_class(G.HIDDEN_SHAPE), 'export': False},
-                      'vis': {'cls': G.make_class(G.HIDDEN_SHAPE)}}
+                      'hm': {'cls': G.make_class(hidden), 'export': False},
+                      'vis': {'cls': G.make_class(hidden)}}
             self.ref = G.reference(shape)
             try:
-                self.node = nodes.Node(modcfg)
+                self.node = nodes.Node(modcfg, start=bool(spec.get('start')))
             except nodes.StartupRefused:
                 raise
             except Exception as e:
@@ -468,8 +485,11 @@ class Checker:
         self.c2 = self.node.connect()     # the activated observer
         self.emitted = []                 # (source, module, wire, value)
         self.only = None
+        self.phase = ''                   # prefix of the sub-case names ('' | 'after-runtime-change|')
+        self.applied = {}                 # attr -> datatype properties the module has set itself (deferred finalisation)
 
     def viol(self, sig, sub, detail):
+        sub = self.phase + sub
         if self.only is not None and sub != self.only:
             return      # replay of one recorded case: the whole node is re-executed identically, one sub-case is reported
         case = {'node': self.spec, 'sub': sub}
@@ -560,14 +580,18 @@ class Checker:
                 cfg = self.spec['cfg'] if m == MOD else {}
                 vcfg = cfg.get('value') if isinstance(cfg.get('value'), dict) else {}
                 declared = pcfg['unit'] if isinstance(pcfg, dict) and 'unit' in pcfg else info['rec'].get('unit')
+                if m == MOD and 'unit' in self.applied.get(info['attr'], {}):
+                    declared = self.applied[info['attr']]['unit']      # the module has set the unit itself since
                 if declared is not None and isinstance(acc.get('datainfo'), dict):
-                    want_unit = declared.replace('$', vcfg.get('unit', ''))
+                    vinfo = ref[m]['accessibles'].get('value')
+                    mainunit = vcfg['unit'] if 'unit' in vcfg else (vinfo['rec'].get('unit') or '') if vinfo else ''
+                    want_unit = declared.replace('$', mainunit)
                     got_unit = acc['datainfo'].get('unit', '')
                     self.part.outcomes['unit-reference:' + ('equal' if got_unit == want_unit else 'differs')] += 1
                     if got_unit != want_unit and '$' not in got_unit:     # a placeholder left over is reported by D7
                         self.viol('C06:unit:described-unit-differs-from-declared-unit-with-main-unit', f'structure/{m}/{wire}/unit',
                                   f'{m}:{wire}: described unit {got_unit!r}, declared {declared!r} with main unit '
-                                  f'{vcfg.get("unit", "")!r} gives {want_unit!r}')
+                                  f'{mainunit!r} gives {want_unit!r}')
                 if info['constant'] and 'constant' in acc:
                     if isinstance(pcfg, dict) and 'constant' in pcfg:
                         want_const = wire_of_native(info['rec']['spec'], pcfg['constant'])
@@ -841,6 +865,95 @@ class Checker:
             self.collect_updates('update-of-driver-reading')
         drv.script.pop(('read', attr), None)
 
+    # ---- D9: commands from the description's side
+    NOARG_PAYLOADS = [None, 0, False, 0.0, -0.0, '', [], {}, 1, True, 2.5, 'x', [0], [None], {'a': 1}, [[]]]
+
+    def probe_command(self, m, wire, acc, may_run):
+        """every payload the described command datainfo does not allow is refused and runs nothing; canonical arguments
+        run the command; a result is importable with the described result datainfo (no result described: null)"""
+        from frappy.datatypes import get_datatype
+        part = self.part
+        sub = f'{m}:{wire}'
+        di = acc['datainfo']
+        argdi, resdi = di.get('argument'), di.get('result')
+        try:
+            adt = get_datatype(argdi, wire) if argdi else None
+            rdt = get_datatype(resdi, wire) if resdi else None
+        except Exception as e:
+            self.viol(f'C06:datainfo:not-constructible:{type(e).__name__}', sub, f'{sub}: command datainfo {di!r}: {e}')
+            return
+        aspec = spec_from_datainfo(argdi) if argdi else None
+        if argdi and aspec is None:
+            part.extra['commands_not_probed'] += 1
+            return
+        if aspec is None:
+            cands = list(self.NOARG_PAYLOADS)
+        else:
+            cands = [None] + V.valid(aspec, 'wire') + V.bad(aspec, 'wire')
+            if aspec[0] == 'struct':
+                cands += [x for x, n in V.cands(aspec, 'wire', 1) if n]
+        tag = 'noarg' if aspec is None else aspec[0]
+        seen = set()
+        for x in cands:
+            if repr(x) in seen:
+                continue
+            seen.add(repr(x))
+            if aspec is None:
+                why_out = None if x is None else f'{R.kindname(x)} {json.dumps(x)} for a command described without argument'
+                canon = x is None
+            elif x is None:
+                why_out, canon = 'no argument for a command described with an argument', False
+            else:
+                why_out = outside_described(aspec, x)
+                canon = c04.ref_export(aspec, x) is not c04.NOVALUE
+            if not may_run and not why_out:
+                continue        # shipped / inherited driver code is never run on purpose: only the refusals are probed
+            part.evaluations += 1
+            part.states += 1
+            if why_out:
+                part.nontrivial += 1
+            nlog = self.drvlen()
+            before = self.snapshot()
+            reply = self.req(f'do {sub}' + ('' if x is None else ' ' + json.dumps(x)))
+            self.c2.take()
+            done = reply[0] == 'done'
+            part.traces += 1
+            part.outcomes[f'do:{tag}:' + ('runs' if done else 'refused') + ':' +
+                          ('not-allowed' if why_out else 'canonical' if canon else 'undecided')] += 1
+            errclass = None if done else reply[2][0]
+            if errclass in ('NoSuchCommand', 'NoSuchModule'):
+                self.viol('C06:described-command-not-addressable', sub, f'do {sub}: {jsonable(reply)!r}')
+                return
+            if done and why_out:
+                self.viol(f'C06:do-vs-described:{tag}:node-runs-command-with-payload-the-description-does-not-allow:'
+                          f'{R.kindname(x)}-payload', sub,
+                          f'do {sub} {json.dumps(x)} answers {jsonable(reply)!r:.160}, but the described datainfo '
+                          f'{json.dumps(di)[:200]} excludes the payload: {why_out}')
+            elif not done and canon:
+                self.viol(f'C06:do-vs-described:{tag}:node-refuses-canonical-argument:{errclass}', sub,
+                          f'do {sub} {json.dumps(x)} answers {jsonable(reply)!r:.200}, the described datainfo is '
+                          f'{json.dumps(di)[:200]}')
+            if not done and (self.drvlen() != nlog or self.snapshot() != before):
+                self.viol('C06:do-vs-described:refused-command-had-effects', sub, f'do {sub} {json.dumps(x)}: {jsonable(reply)!r:.160}')
+            if adt is not None and x is not None:
+                try:
+                    adt.validate(adt.import_value(x))
+                    caccept = True
+                except Exception:
+                    caccept = False
+                if caccept != done and (may_run or not caccept):
+                    self.viol(f'C06:do-vs-datainfo:{tag}:node-{"runs" if done else "refuses"}-datainfo-'
+                              f'{"accepts" if caccept else "refuses"}:{R.kindname(x)}-payload', sub,
+                              f'do {sub} {json.dumps(x)}: node answers {jsonable(reply)!r:.160}, '
+                              f'get_datatype({json.dumps(argdi)[:150]}) {"accepts" if caccept else "refuses"} it')
+            if done:
+                res = reply[2][0] if isinstance(reply[2], list) and reply[2] else None
+                if rdt is None:
+                    if res is not None:
+                        self.viol('C06:do:result-although-none-described', sub, f'do {sub}: {jsonable(reply)!r:.160}')
+                else:
+                    self.importable(rdt, m, wire, 'command-result', res)
+
     # ---- D8
     def undescribed(self, desc):
         part = self.part
@@ -979,6 +1092,19 @@ class Checker:
                     spec = spec_from_datainfo(acc['datainfo'])
                     if spec:
                         self.feed_readings(m, wire, info['attr'], spec, info['rec']['spec'])
+        # D9: described commands
+        for m, md in desc['modules'].items():
+            mod = self.node.secnode.modules.get(m)
+            if mod is None:
+                continue
+            for wire, acc in md['accessibles'].items():
+                if isinstance(acc.get('datainfo'), dict) and acc['datainfo'].get('type') == 'command':
+                    part.extra['described_commands'] += 1
+                    may_run = False
+                    if self.kind == 'gen' and m in ref:
+                        infos = [i for i in ref[m]['accessibles'].values() if i['wire'] == wire and i['kind'] == 'command']
+                        may_run = bool(infos) and not infos[0]['rec'].get('foreign')
+                    self.probe_command(m, wire, acc, may_run)
         # D4 on everything collected (+ D5: whatever is emitted for a described constant is that constant)
         for source, m, w, v in self.emitted:
             cdt = cdts.get((m, w))
@@ -1023,7 +1149,19 @@ def check_node(spec, part, only=None):
         return
     try:
         chk = Checker(part, nut)
+        deferred = spec['shape'].get('deferred') if spec['kind'] == 'gen' and spec.get('start') else None
+        if deferred:
+            chk.applied = {a: dict(c.get('props', {})) for a, c in deferred.get('start', {}).items()}
         chk.run(only)
+        if deferred:
+            # the driver changes datatypes at run time; a client that asks now is judged against the behaviour now
+            nut.node.secnode.modules[MOD].vf_runtime_change()
+            part.extra['runtime_datatype_changes'] += 1
+            chk2 = Checker(part, nut)
+            chk2.phase = 'after-runtime-change|'
+            chk2.applied = {a: dict(chk.applied.get(a, {}), **c.get('props', {}))
+                            for a, c in list(deferred.get('start', {}).items()) + list(deferred.get('runtime', {}).items())}
+            chk2.run(only)
         if part.extra['nodes'] <= 2:
             part.sample({'node': spec['label'], 'modules': sorted(nut.node.secnode.modules),
                          'emitted_values_checked': len(chk.emitted)})
